@@ -50,9 +50,13 @@ def gen(tier, rng, scale):
                     m = rng.choice(pool)
                     # the id as printed, or the same id in lower case (both spellings name the same build)
                     mm.append([m["debugName"], m["breakpadId"] if not rng.chance(1, 8) else m["breakpadId"].lower(), m])
-                elif r < 8:
+                elif r < 7:
                     u = rng.choice(unknown)
                     mm.append([u[0], u[1], None])
+                elif r < 8:
+                    # another name under the id of a real module: a different module as far as the memory map is concerned (it has no file here)
+                    m = rng.choice(pool)
+                    mm.append([rng.choice([m["debugName"] + "-renamed", "x" + m["debugName"], m["debugName"].upper() + "_"]), m["breakpadId"], None])
                 else:
                     m = rng.choice(mods)
                     mm.append([m["debugName"], m["breakpadId"], m])
